@@ -1,7 +1,7 @@
 (* C16 - Asynchronous requests (set_data / get_data). *)
 From Coq Require Import ZArith List Bool Arith.
 Import ListNotations.
-From MV Require Import Time.Spec Static.Build Sched.Timing Sched.Plane Sched.DataP Sched.Inv Sched.Main Sched.Guards Sched.Final Sched.SetData.
+From MV Require Import Time.Spec Static.Build Sched.Timing Sched.Plane Sched.DataP Sched.Inv Sched.Main Sched.Guards Sched.Final Sched.SetData Sched.GenView Gen.SchedulerFns Sched.SchedTie.
 Open Scope Z_scope.
 
 (* values written with set_data are handed to the next step of the target and the register is empty afterwards:
@@ -60,3 +60,11 @@ Theorem C16_agent_bound_persists : forall st, static_ok st -> forall s i t m s',
   forall j d c, In (j,d) (succ_wait st i) -> In c (cands (sr j)) -> tle (act t d) c = true.
 Proof. exact async_bound_over_runs. Qed.
 Print Assumptions C16_agent_bound_persists.
+
+(* tie to the source: the awaited conditions of wait_for_dependencies as regenerated from mosaik/scheduler.py (the second group,
+   over successors_to_wait_for, is the guard that keeps a plant behind the agents that may write to it) hold exactly when the
+   model's guard deps_ok holds *)
+Theorem C16_generated_guard_is_the_model : forall st s i t,
+  wait_for_dependencies_ready (pview s (indel st i)) (pview s (succ_wait st i)) (pview s (succ_lazy st i)) (lazy st) t = deps_ok st s i t.
+Proof. exact tie_wait_for_dependencies. Qed.
+Print Assumptions C16_generated_guard_is_the_model.
